@@ -43,5 +43,22 @@ def cfg_normal_widths (P : Prim K) (s0 s1 slo shi b0 b1 u0 u1 eb0 eb1 hl0 hl1 hh
 def cfg_poisson_factors (P : Prim K) (s0 s1 slo shi b0 b1 u0 u1 eb0 eb1 hl0 hl1 hh0 hh1 : K) (i_mu lo_mu hi_mu x_lumi sg_lumi i_lumi lo_lumi hi_lumi i_sysA x_sysA i_st0 i_st1 sg_st0 sg_st1 lo_sf0 hi_sf0 lo_sf1 hi_sf1 x_u0 x_u1 f_u0 f_u1 : K) : List K :=
   [f_u0, f_u1]
 
+/-- the channel layout of a model whose specification lists ZR (3 bins), AR (1 bin), MR (2 bins) in this order -/
+def lay_declared : List (String × Nat) := [("ZR", 3), ("AR", 1), ("MR", 2)]
+
+def lay_channels : List String := ["AR", "MR", "ZR"]
+
+def lay_samples : List String := ["qcd", "ttbar", "wjets"]
+
+def lay_channel_nbins : List (String × Nat) := [("AR", 1), ("MR", 2), ("ZR", 3)]
+
+def lay_channel_slices : List (String × Nat × Nat) := [("AR", 0, 1), ("MR", 1, 3), ("ZR", 3, 6)]
+
+def lay_nmaindata : Nat := 6
+
+def lay_par_slices : List (String × Nat × Nat) := [("mu", 0, 1), ("sfz", 1, 4), ("ssm", 4, 6)]
+
+def lay_npars : Nat := 6
+
 end
 end Pyhf.Gen
